@@ -11,7 +11,9 @@ Bases == << [name |-> "northup", A |-> <<10, 0, 100, 0, -10, 200>>, carrier |-> 
             [name |-> "northup_cf", A |-> <<10, 0, 100, 0, -10, 200>>, carrier |-> "labels"], [name |-> "mirrored_attrs", A |-> <<-10, 0, 100, 0, 20, 200>>, carrier |-> "labels"],
             [name |-> "northup_two_crs_coords", A |-> <<10, 0, 100, 0, -10, 200>>, carrier |-> "labels"],
             \* the same registration carried by a GCP box that is itself a view (cropped / zoomed: non-identity pixel affine) of its control points
-            [name |-> "gcp_view_cropped", A |-> <<6, -8, 100, 8, 6, 200>>, carrier |-> "gcp"], [name |-> "gcp_view_zoomed", A |-> <<6, -8, 100, 8, 6, 200>>, carrier |-> "gcp"] >>
+            [name |-> "gcp_view_cropped", A |-> <<6, -8, 100, 8, 6, 200>>, carrier |-> "gcp"], [name |-> "gcp_view_zoomed", A |-> <<6, -8, 100, 8, 6, 200>>, carrier |-> "gcp"],
+            \* control points at pixel centres / quarter positions (not on integer pixel corners)
+            [name |-> "gcp_subpixel", A |-> <<6, -8, 100, 8, 6, 200>>, carrier |-> "gcp"] >>
 Containers == << [container |-> "DataArray", backend |-> "numpy", dims |-> "yx"], [container |-> "DataArray", backend |-> "dask", dims |-> "tyx"],
                  [container |-> "Dataset", backend |-> "numpy", dims |-> "yx"], [container |-> "DataArray", backend |-> "numpy", dims |-> "yxb"],
                  [container |-> "Dataset", backend |-> "dask", dims |-> "tyx"] >>
